@@ -76,6 +76,50 @@ theorem matches_body_eq_model (u : Uni) (k : Key) (key : Int) (m : Nat) :
 
 example : matchesGen VaxisModel.Props.C09Body.exUni { keycode := 97, mods := 5 } 97 5 = some true := by decide +kernel
 
+set_option maxHeartbeats 400000 in
+set_option maxRecDepth 4000 in
+set_option linter.unusedSimpArgs false in
+/-- **matches_body_variadic_0.** `k.Matches(key)` — no modifier argument — is the model with the empty mask (the
+    `for _, mod := range modifiers` loop of the extracted body runs zero times). -/
+theorem matches_body_variadic_0 (u : Uni) (k : Key) (key : Int) :
+    matchesGenL u k key [] = some («matches» u k key 0) := by
+  unfold matchesGenL VaxisModel.Gen.KeyBody.matchesBody
+  simp only [Ss.ofList, Es.ofList, execSs, execS, lhsNames, evalEs, evalE, VaxisModel.Model.GoInterp.bind, keyFields, zeroOf, rangeItems, loop,
+    assignVals, hasErr, bindAll, List.lookup, List.map, List.append, String.reduceEq, String.reduceBEq, String.reduceAppend, ctx, noFuncs,
+    reduceIte, or_false, false_or, or_self, List.length, Option.map, List.cons_append, List.nil_append,
+    andThen_norm, andThen_ret, andThen_err, andThen_ite, branch_bool, binop_land, binop_eq_int, binop_eq_str, binop_ne_int, binop_band, binop_bor, binop_andNot, unop_not,
+    Bool.false_eq_true, callFn_string, callFn_isLetter, callFn_isGraphic, callFn_isLower, callFn_toUpper, const_ModShift, const_ModCapsLock, const_ModNumLock,
+    Int.toNat_natCast, Int.toNat_zero, Nat.zero_or, retBool_ite, retBool_ret]
+  unfold «matches»
+  simp only [some_ite, Bool.and_eq_true, decide_eq_true_eq, Int.natCast_inj, ModCapsLock, ModNumLock, ModShift, Bool.not_eq_true', bne_iff_ne, ne_eq, Bool.not_eq_eq_eq_not, Bool.not_true, decide_eq_false_iff_not]
+  simp only [Int.natCast_eq_zero]
+  repeat' split
+  all_goals (first | rfl | grind)
+
+set_option maxHeartbeats 400000 in
+set_option maxRecDepth 4000 in
+set_option linter.unusedSimpArgs false in
+/-- **matches_body_variadic_2.** `k.Matches(key, m1, m2)` is the model with the mask `m1 ||| m2`: the loop of the
+    extracted body ORs the variadic arguments (two iterations). -/
+theorem matches_body_variadic_2 (u : Uni) (k : Key) (key : Int) (m1 m2 : Nat) :
+    matchesGenL u k key [m1, m2] = some («matches» u k key (m1 ||| m2)) := by
+  unfold matchesGenL VaxisModel.Gen.KeyBody.matchesBody
+  simp only [Ss.ofList, Es.ofList, execSs, execS, lhsNames, evalEs, evalE, VaxisModel.Model.GoInterp.bind, keyFields, zeroOf, rangeItems, loop,
+    assignVals, hasErr, bindAll, List.lookup, List.map, List.append, String.reduceEq, String.reduceBEq, String.reduceAppend, ctx, noFuncs,
+    reduceIte, or_false, false_or, or_self, List.length, Option.map, List.cons_append, List.nil_append,
+    andThen_norm, andThen_ret, andThen_err, andThen_ite, branch_bool, binop_land, binop_eq_int, binop_eq_str, binop_ne_int, binop_band, binop_bor, binop_andNot, unop_not,
+    Bool.false_eq_true, callFn_string, callFn_isLetter, callFn_isGraphic, callFn_isLower, callFn_toUpper, const_ModShift, const_ModCapsLock, const_ModNumLock,
+    Int.toNat_natCast, Int.toNat_zero, Nat.zero_or, retBool_ite, retBool_ret]
+  unfold «matches»
+  simp only [some_ite, Bool.and_eq_true, decide_eq_true_eq, Int.natCast_inj, ModCapsLock, ModNumLock, ModShift, Bool.not_eq_true', bne_iff_ne, ne_eq, Bool.not_eq_eq_eq_not, Bool.not_true, decide_eq_false_iff_not]
+  simp only [Int.natCast_eq_zero]
+  repeat' split
+  all_goals (first | rfl | grind)
+
+/-- The one-argument case is `matches_body_eq_model`. -/
+theorem matches_body_variadic_1 (u : Uni) (k : Key) (key : Int) (m : Nat) :
+    matchesGenL u k key [m] = some («matches» u k key m) := matches_body_eq_model u k key m
+
 /-- **string_body_eq_model.** Running the body of `Key.String` as extracted from key.go on this run
     (the six modifier prefixes, the switch on the key code, the loop over `keyNames`) gives, for every
     `unicode` oracle and key event, exactly the hand-written `Model.Key.keyString`. -/
